@@ -206,8 +206,34 @@ class Context(object):
 
         self.warnOnUnrecognized = True
 
+        # A new context means a new document: forget the parsing state
+        # that the previous document left on the macro classes
+        self.resetParserState()
+
         if load:
             self.loadBaseMacros()
+
+    @staticmethod
+    def resetParserState():
+        """
+        Reset the parsing state that is kept on macro classes
+
+        The nesting depth of lists, the stack of formulas opened by `$',
+        the switch that turns \\( and \\) into grouping and the switch
+        that keeps parameters from being invoked while an argument is
+        read are class attributes.  A document that ends inside a list
+        or a formula (or that fails) leaves them set, and the next
+        document processed by the same interpreter would start with them.
+
+        """
+        from plasTeX.Base.LaTeX.Lists import List
+        from plasTeX.Base.LaTeX.Math import BeginMath, EndMath
+        from plasTeX.Base.TeX.Primitives import MathShift
+        List.depth = 0
+        del MathShift.inEnv[:]
+        BeginMath.disableMath = EndMath.disableMath = False
+        plasTeX.ParameterCommand._enablelevel = 0
+        plasTeX.ParameterCommand.enabled = True
 
     @property
     def currenvir(self):
